@@ -304,3 +304,76 @@ pub fn encode_label(variant_char: bool, c: u32, out: &mut Vec<u8>) {
         out.push(c as u8);
     }
 }
+
+// ------------------------------------------------------------------------------------------------
+// Linear-time versions of the oracles for long haystacks. Input: all occurrences in the order the
+// reference automaton lists them (end ascending, longest first). They are validated against the
+// definitional (quadratic) versions on every small-scope run (see `fast_oracles_agree`).
+
+pub fn f_overlapping(occ: &[Occ]) -> Vec<Occ> {
+    occ.to_vec()
+}
+
+pub fn f_no_suffix(occ: &[Occ]) -> Vec<Occ> {
+    let mut v: Vec<Occ> = Vec::new();
+    for &o in occ {
+        if v.last().map_or(true, |l| l.1 != o.1) {
+            v.push(o);
+        }
+    }
+    v
+}
+
+pub fn f_find(occ: &[Occ]) -> Vec<Occ> {
+    // earliest end, then longest, among occurrences starting at or after the previous end
+    let mut v = Vec::new();
+    let mut pos = 0;
+    for &o in occ {
+        if o.0 >= pos {
+            v.push(o);
+            pos = o.1;
+        }
+    }
+    v
+}
+
+fn f_leftmost(occ: &[Occ], n: usize, better: impl Fn(&Occ, &Occ) -> bool) -> Vec<Occ> {
+    // best occurrence per start position
+    let mut best: Vec<Option<Occ>> = vec![None; n + 1];
+    for &o in occ {
+        match &best[o.0] {
+            Some(b) if !better(&o, b) => {}
+            _ => best[o.0] = Some(o),
+        }
+    }
+    let mut v = Vec::new();
+    let mut pos = 0;
+    while pos <= n {
+        match best[pos] {
+            Some(o) => {
+                v.push(o);
+                pos = o.1;
+            }
+            None => pos += 1,
+        }
+    }
+    v
+}
+
+pub fn f_leftmost_longest(occ: &[Occ], n: usize) -> Vec<Occ> {
+    f_leftmost(occ, n, |a, b| a.1 > b.1)
+}
+
+pub fn f_leftmost_first(occ: &[Occ], n: usize) -> Vec<Occ> {
+    f_leftmost(occ, n, |a, b| a.2 < b.2)
+}
+
+/// Self-check of the fast oracles against the definitional ones.
+pub fn fast_oracles_agree(occ_any_order: &[Occ], n: usize) -> bool {
+    let o = o_overlapping(occ_any_order);
+    f_overlapping(&o) == o
+        && f_no_suffix(&o) == o_no_suffix(occ_any_order)
+        && f_find(&o) == o_find(occ_any_order)
+        && f_leftmost_longest(&o, n) == o_leftmost_longest(occ_any_order)
+        && f_leftmost_first(&o, n) == o_leftmost_first(occ_any_order)
+}
